@@ -11,7 +11,7 @@
        pipes complete).
    Datagram loss, outages, MTUs and operation orders are the environment (scenario plan), not part of the state. *)
 EXTENDS Naturals, FiniteSets, Sequences, TLC
-CONSTANTS IdleUs, SlackUs
+CONSTANTS IdleUs, SlackUs, KnownF14
 None == 0 - 1
 VARIABLES mode, vanishAt,
           ws, w, finStarted, r, closed,     \* per pipe (functions over the pipes seen so far)
@@ -53,6 +53,10 @@ Eos(p, total) ==
 Max2(a, b) == IF a >= b THEN a ELSE b
 ErrorJustified(p, t) ==
   \/ StreamOf(p) \in droppedStreams
+  \* known finding F14: the writing application finished the stream (its finishing call returned, it read the peer's
+  \* direction to the end and dropped its handles) while part of what it wrote was still unacknowledged; the library
+  \* then stops repairing lost packets and the reader gets an error instead of the rest of the data
+  \/ (KnownF14 /\ p \in finStarted /\ StreamOf(p) \in finished /\ Get(r, p) < Get(ws, p) /\ PrintT(<<"KNOWN-FINDING", "F14">>))
   \/ /\ mode = "vanish" /\ vanishAt # None /\ t >= vanishAt
      /\ t <= Max2(vanishAt, Get(openedAt, StreamOf(p))) + IdleUs + SlackUs
 Error(p, t) == ErrorJustified(p, t) /\ closed' = Put(closed, p, "err")
